@@ -3,6 +3,7 @@
         than there are bytes (a count larger than the remaining input always fails);
      B  which sections are therefore immune and which are not: the resource answers (Err EFuel) of
         Header.parse_header that tiny inputs reach;
+     C' on bytes, what remains are bytes and every NUMBER read is non-negative;
      D  parse_cost_partial: the object graph the parser builds is linear in the input and the limit.
    Nothing but props/C05.v requires this file (the extracted model does not depend on it).
    stdlib only; no axioms. *)
@@ -501,6 +502,233 @@ Proof.
   change (zlen witness_numfiles) with 11. lia.
 Qed.
 
+(* ---- C'. on input that consists of bytes, what remains consists of bytes and every NUMBER read is
+        non-negative (needed where a count is turned into a list without a test for its sign) ---- *)
+Definition wfp {A} (rd : reader A) : Prop :=
+  forall bs x r, rd bs = Ok (x, r) -> wf_bytes bs = true -> wf_bytes r = true.
+
+Lemma wf_bytes_tail b bs : wf_bytes (b :: bs) = true -> wf_bytes bs = true.
+Proof. cbn [wf_bytes forallb]. intros H. apply andb_true_iff in H. apply H. Qed.
+
+Lemma wf_bytes_dropZ n bs : wf_bytes bs = true -> wf_bytes (dropZ n bs) = true.
+Proof. unfold dropZ. apply wf_bytes_skipn. Qed.
+
+Lemma rd_pid_wfp : wfp rd_pid.
+Proof. intros [|b bs] x r H W; injection H as _ <-; [reflexivity|exact (wf_bytes_tail _ _ W)]. Qed.
+
+Lemma rd_byte_wfp : wfp rd_byte.
+Proof. intros [|b bs] x r H W; [discriminate|]. injection H as _ <-. exact (wf_bytes_tail _ _ W). Qed.
+
+Lemma rd_fixed_wfp n : wfp (rd_fixed n).
+Proof.
+  intros bs x r H W. unfold rd_fixed in H. destruct (length bs <? n)%nat; [discriminate|].
+  injection H as _ <-. apply wf_bytes_skipn. exact W.
+Qed.
+
+Lemma rd_fixed_nonneg n bs x r : rd_fixed n bs = Ok (x, r) -> wf_bytes bs = true -> 0 <= x.
+Proof.
+  intros H W. unfold rd_fixed in H. destruct (length bs <? n)%nat; [discriminate|].
+  injection H as <- _. apply (le_value_bound (firstn n bs)). apply wf_bytes_firstn. exact W.
+Qed.
+
+Lemma rd_number_wfp : wfp rd_number.
+Proof.
+  intros [|b bs] x r H W; [discriminate|]. cbn [rd_number] in H. apply wf_bytes_tail in W.
+  destruct (b =? 255); [exact (rd_fixed_wfp 8 _ _ _ H W)|].
+  injection H as _ <-. apply wf_bytes_skipn. exact W.
+Qed.
+
+Lemma rd_number_nonneg bs x r : rd_number bs = Ok (x, r) -> wf_bytes bs = true -> 0 <= x.
+Proof.
+  destruct bs as [|b bs]; intros H W; [discriminate|]. cbn [rd_number] in H.
+  pose proof (wf_bytes_tail _ _ W) as W'.
+  destruct (b =? 255); [exact (rd_fixed_nonneg 8 _ _ _ H W')|].
+  injection H as <- _.
+  pose proof (le_value_bound (firstn (leading_ones b) bs) (wf_bytes_firstn _ _ W')) as Hl.
+  assert (0 <= (if (leading_ones b <? 7)%nat then b mod 2 ^ (7 - Z.of_nat (leading_ones b)) else 0)).
+  { destruct (leading_ones b <? 7)%nat eqn:E; [|lia]. apply Z.mod_pos_bound. apply Z.pow_pos_nonneg; lia. }
+  assert (0 <= 256 ^ Z.of_nat (leading_ones b)) by (apply Z.pow_nonneg; lia).
+  apply Z.add_nonneg_nonneg; [apply Z.mul_nonneg_nonneg; assumption|lia].
+Qed.
+
+Lemma rd_bytes_wfp n : wfp (rd_bytes n).
+Proof. intros bs x r H W. injection H as _ <-. apply wf_bytes_dropZ. exact W. Qed.
+
+Lemma rd_rep_wfp {A} (rd : reader A) : wfp rd -> forall fuel n, wfp (rd_rep fuel n rd).
+Proof.
+  intros Hw. induction fuel as [|f IH]; intros n bs l r H W; cbn [rd_rep] in H.
+  - destruct (n <=? 0); [|discriminate]. injection H as _ <-. exact W.
+  - destruct (n <=? 0); [injection H as _ <-; exact W|].
+    bind_ok H. destruct x as [a r1]. bind_ok H. destruct x as [xs r2]. injection H as _ <-.
+    exact (IH _ _ _ _ E0 (Hw _ _ _ E W)).
+Qed.
+
+Lemma rd_many_wfp {A} (rd : reader A) n : wfp rd -> wfp (rd_many n rd).
+Proof. intros Hw bs l r H W. exact (rd_rep_wfp rd Hw _ _ _ _ _ H W). Qed.
+
+(* every element a repeated NUMBER reader returns is non-negative *)
+Lemma rd_rep_number_nonneg : forall fuel n bs l r,
+  rd_rep fuel n rd_number bs = Ok (l, r) -> wf_bytes bs = true -> Forall (fun v => 0 <= v) l.
+Proof.
+  induction fuel as [|f IH]; intros n bs l r H W; cbn [rd_rep] in H.
+  - destruct (n <=? 0); [|discriminate]. injection H as <- _. constructor.
+  - destruct (n <=? 0); [injection H as <- _; constructor|].
+    bind_ok H. destruct x as [a r1]. bind_ok H. destruct x as [xs r2]. injection H as <- _.
+    constructor; [exact (rd_number_nonneg _ _ _ E W)|].
+    exact (IH _ _ _ _ E0 (rd_number_wfp _ _ _ E W)).
+Qed.
+
+Lemma rd_bits_fuel_wfp : forall fuel count, wfp (rd_bits_fuel fuel count).
+Proof.
+  induction fuel as [|f IH]; intros count bs l r H W; cbn [rd_bits_fuel] in H.
+  - destruct (count <=? 0); [|discriminate]. injection H as _ <-. exact W.
+  - destruct (count <=? 0); [injection H as _ <-; exact W|].
+    destruct bs as [|b bs]; [discriminate|]. apply wf_bytes_tail in W.
+    destruct (count <? 8); [injection H as _ <-; exact W|].
+    bind_ok H. destruct x as [l' r']. injection H as _ <-. exact (IH _ _ _ _ E W).
+Qed.
+
+Lemma rd_boolean_wfp lim count checkall : wfp (rd_boolean lim count checkall).
+Proof.
+  intros bs l r H W. unfold rd_boolean in H. destruct checkall; [|exact (rd_bits_fuel_wfp _ _ _ _ _ H W)].
+  destruct bs as [|b bs].
+  - destruct (lim <? count); [discriminate|]. injection H as _ <-. reflexivity.
+  - apply wf_bytes_tail in W. destruct (b =? 0) eqn:Eb.
+    + apply Z.eqb_eq in Eb. subst b. exact (rd_bits_fuel_wfp _ _ _ _ _ H W).
+    + assert (H' : (if lim <? count then Err EFuel else Ok (repeat true (Z.to_nat count), bs)) = Ok (l, r)).
+      { destruct b as [|p|p]; [discriminate Eb| exact H | exact H]. }
+      destruct (lim <? count); [discriminate|]. injection H' as _ <-. exact W.
+Qed.
+
+Lemma rd_crcs_wfp count : wfp (rd_crcs count).
+Proof.
+  intros bs l r H W. unfold rd_crcs in H. destruct (count <=? 0).
+  - injection H as _ <-. apply wf_bytes_dropZ. exact W.
+  - destruct (zlen bs <? 4 * count); [discriminate|].
+    exact (rd_many_wfp (rd_fixed 4) count (rd_fixed_wfp 4) _ _ _ H W).
+Qed.
+
+Lemma rd_bond_wfp : wfp rd_bond.
+Proof.
+  intros bs x r H W. unfold rd_bond in H.
+  bind_ok H. destruct x0 as [a r1]. bind_ok H. destruct x0 as [b r2]. injection H as _ <-.
+  exact (rd_number_wfp _ _ _ E0 (rd_number_wfp _ _ _ E W)).
+Qed.
+
+Lemma parse_coder_wfp : wfp parse_coder.
+Proof.
+  intros bs x r H W. unfold parse_coder in H.
+  bind_ok H. destruct x0 as [b r1]. pose proof (rd_byte_wfp _ _ _ E W) as W1.
+  bind_ok H. destruct x0 as [m r2].
+  assert (W2 : wf_bytes r2 = true).
+  { destruct (0 <? Z.land b 15); [exact (rd_bytes_wfp _ _ _ _ E0 W1)|]. injection E0 as _ <-. exact W1. }
+  bind_ok H. destruct x0 as [[nin nout] r3].
+  assert (W3 : wf_bytes r3 = true).
+  { destruct (negb (Z.land b 16 =? 0)).
+    - bind_ok E1. destruct x0 as [a r']. bind_ok E1. destruct x0 as [b' r'']. injection E1 as _ _ <-.
+      exact (rd_number_wfp _ _ _ E3 (rd_number_wfp _ _ _ E2 W2)).
+    - injection E1 as _ _ <-. exact W2. }
+  bind_ok H. destruct x0 as [pr r4].
+  assert (W4 : wf_bytes r4 = true).
+  { destruct (negb (Z.land b 32 =? 0)).
+    - bind_ok E2. destruct x0 as [pl r']. bind_ok E2. destruct x0 as [p r'']. injection E2 as _ <-.
+      exact (rd_bytes_wfp _ _ _ _ E4 (rd_number_wfp _ _ _ E3 W3)).
+    - injection E2 as _ <-. exact W3. }
+  injection H as _ <-. exact W4.
+Qed.
+
+Lemma parse_folder_wfp lim : wfp (parse_folder lim).
+Proof.
+  intros bs f r H W. unfold parse_folder in H.
+  bind_ok H. destruct x as [nc r1]. pose proof (rd_number_wfp _ _ _ E W) as W1.
+  bind_ok H. destruct x as [coders r2]. pose proof (rd_many_wfp parse_coder nc parse_coder_wfp _ _ _ E0 W1) as W2.
+  bind_ok H. destruct x as [bonds r3]. pose proof (rd_many_wfp rd_bond _ rd_bond_wfp _ _ _ E1 W2) as W3.
+  destruct (_ - _ =? 1).
+  - destruct (lim <? _); [discriminate|]. injection H as _ <-. exact W3.
+  - bind_ok H. destruct x as [packed r4]. injection H as _ <-.
+    exact (rd_many_wfp rd_number _ rd_number_wfp _ _ _ E2 W3).
+Qed.
+
+Lemma rd_unpacksizes_wfp : forall fs, wfp (rd_unpacksizes fs).
+Proof.
+  induction fs as [|f fs IH]; intros bs fs' r H W; cbn [rd_unpacksizes] in H.
+  - injection H as _ <-. exact W.
+  - bind_ok H. destruct x as [sz r1]. bind_ok H. destruct x as [fs1 r2]. injection H as _ <-.
+    exact (IH _ _ _ E0 (rd_many_wfp rd_number _ rd_number_wfp _ _ _ E W)).
+Qed.
+
+Lemma parse_packinfo_wfp lim : wfp (parse_packinfo lim).
+Proof.
+  intros bs p r H W. unfold parse_packinfo in H.
+  bind_ok H. destruct x as [pos r1]. pose proof (rd_number_wfp _ _ _ E W) as W1.
+  bind_ok H. destruct x as [n r2]. pose proof (rd_number_wfp _ _ _ E0 W1) as W2.
+  bind_ok H. destruct x as [pid r3]. pose proof (rd_pid_wfp _ _ _ E1 W2) as W3.
+  destruct (lim <? n); [discriminate|].
+  bind_ok H. destruct x as [[[[sizes defined] crcs] pid'] r4].
+  assert (W4 : wf_bytes r4 = true).
+  { destruct pid as [pv|]; [|injection E2 as _ _ _ _ <-; exact W3].
+    destruct (pv =? 9) eqn:E9.
+    - apply Z.eqb_eq in E9. subst pv.
+      bind_ok E2. destruct x as [sz r5]. pose proof (rd_many_wfp rd_number n rd_number_wfp _ _ _ E3 W3) as W5.
+      bind_ok E2. destruct x as [pid2 r6]. pose proof (rd_pid_wfp _ _ _ E4 W5) as W6.
+      destruct pid2 as [pv2|]; [|injection E2 as _ _ _ _ <-; exact W6].
+      destruct (pv2 =? 10) eqn:E10.
+      + apply Z.eqb_eq in E10. subst pv2.
+        bind_ok E2. destruct x as [df r7]. pose proof (rd_boolean_wfp _ _ _ _ _ _ E5 W6) as W7.
+        bind_ok E2. destruct x as [cr r8]. unfold rd_defined_crcs in E6.
+        pose proof (rd_many_wfp (rd_fixed 4) _ (rd_fixed_wfp 4) _ _ _ E6 W7) as W8.
+        bind_ok E2. destruct x as [pid3 r9]. injection E2 as _ _ _ _ <-. exact (rd_pid_wfp _ _ _ E7 W8).
+      + assert (E2' : Ok (sz, [], [], Some pv2, r6) = Ok (sizes, defined, crcs, pid', r4)).
+        { destruct pv2 as [|q|q]; try exact E2.
+          do 4 (destruct q as [q|q|]; try exact E2). discriminate E10. }
+        injection E2' as _ _ _ _ <-. exact W6.
+    - assert (E2' : Ok ([], [], [], Some pv, r3) = Ok (sizes, defined, crcs, pid', r4)).
+      { destruct pv as [|q|q]; try exact E2.
+        do 4 (destruct q as [q|q|]; try exact E2). discriminate E9. }
+      injection E2' as _ _ _ _ <-. exact W3. }
+  destruct pid' as [pv|]; [|discriminate]. destruct pv; try discriminate.
+  injection H as _ <-. exact W4.
+Qed.
+
+Lemma parse_unpackinfo_wfp lim : wfp (parse_unpackinfo lim).
+Proof.
+  intros bs fs r H W. unfold parse_unpackinfo in H.
+  bind_ok H. destruct x as [pid r1]. pose proof (rd_pid_wfp _ _ _ E W) as W1.
+  destruct pid as [pv|]; [|discriminate].
+  destruct (pv =? 11) eqn:E11.
+  2:{ exfalso. destruct pv as [|q|q]; try discriminate H.
+      do 4 (destruct q as [q|q|]; try discriminate H). discriminate E11. }
+  apply Z.eqb_eq in E11. subst pv.
+  bind_ok H. destruct x as [nf r2]. pose proof (rd_number_wfp _ _ _ E0 W1) as W2.
+  bind_ok H. destruct x as [ext r3]. pose proof (rd_byte_wfp _ _ _ E1 W2) as W3.
+  destruct (negb (ext =? 0)); [discriminate|].
+  bind_ok H. destruct x as [fs0 r4].
+  pose proof (rd_many_wfp (parse_folder lim) nf (parse_folder_wfp lim) _ _ _ E2 W3) as W4.
+  bind_ok H. destruct x as [pid2 r5]. pose proof (rd_pid_wfp _ _ _ E3 W4) as W5.
+  destruct pid2 as [pv|]; [|discriminate].
+  destruct (pv =? 12) eqn:E12.
+  2:{ exfalso. destruct pv as [|q|q]; try discriminate H.
+      do 4 (destruct q as [q|q|]; try discriminate H). discriminate E12. }
+  apply Z.eqb_eq in E12. subst pv.
+  bind_ok H. destruct x as [fs1 r6]. pose proof (rd_unpacksizes_wfp _ _ _ _ E4 W5) as W6.
+  bind_ok H. destruct x as [pid3 r7]. pose proof (rd_pid_wfp _ _ _ E5 W6) as W7.
+  bind_ok H. destruct x as [[fs2 pid4] r8].
+  assert (W8 : wf_bytes r8 = true).
+  { destruct pid3 as [pv|]; [|injection E6 as _ _ <-; exact W7].
+    destruct (pv =? 10) eqn:E10.
+    - apply Z.eqb_eq in E10. subst pv.
+      bind_ok E6. destruct x as [df r9]. pose proof (rd_boolean_wfp _ _ _ _ _ _ E7 W7) as W9.
+      bind_ok E6. destruct x as [cr r10]. pose proof (rd_crcs_wfp _ _ _ _ E8 W9) as W10.
+      bind_ok E6. bind_ok E6. destruct x0 as [pid5 r11]. injection E6 as _ _ <-.
+      exact (rd_pid_wfp _ _ _ E10 W10).
+    - assert (E6' : Ok (fs1, Some pv, r7) = Ok (fs2, pid4, r8)).
+      { destruct pv as [|q|q]; try exact E6.
+        do 4 (destruct q as [q|q|]; try exact E6). discriminate E10. }
+      injection E6' as _ _ <-. exact W7. }
+  destruct pid4 as [pv|]; [|discriminate]. destruct pv; try discriminate.
+  injection H as _ <-. exact W8.
+Qed.
+
 (* ---- D. parse_cost_partial: what the parser builds is linear in the input and the limit ----
    (header_size counts every list cell of the object graph, packpositions included; with every
     declared count within the limit, and the limit within the input size, the graph is linear
@@ -732,27 +960,61 @@ Proof.
       unfold zlen in *. rewrite !app_length, !firstn_length. rewrite !skipn_length in E. cbn [length]. lia.
 Qed.
 
+Lemma sub_digest_counts_total : forall nums fs a b,
+  sub_digest_counts nums fs = Ok (a, b) -> b = sumZ nums.
+Proof.
+  induction nums as [|n nr IH]; intros fs a b H; cbn [sub_digest_counts] in H.
+  - injection H as _ <-. reflexivity.
+  - destruct fs as [|f fr]; [discriminate|]. bind_ok H. destruct x as [a' b']. injection H as _ <-.
+    rewrite sumZ_cons, (IH _ _ _ E). reflexivity.
+Qed.
+
+Lemma default_digests_length : forall nums fs,
+  Forall (fun v => 0 <= v) nums ->
+  zlen (fst (default_digests nums fs)) <= sumZ nums /\ zlen (snd (default_digests nums fs)) <= sumZ nums.
+Proof.
+  induction nums as [|n nr IH]; intros fs Hnn.
+  - cbn [default_digests fst snd]. rewrite sumZ_nil. unfold zlen. cbn [length]. lia.
+  - destruct fs as [|f fr].
+    + cbn [default_digests fst snd]. rewrite sumZ_cons. inversion Hnn as [|? ? Hn Hr]; subst.
+      assert (0 <= sumZ nr).
+      { clear - Hr. induction Hr as [|x l Hx Hl IHl]; [rewrite sumZ_nil; lia|rewrite sumZ_cons; lia]. }
+      unfold zlen. cbn [length]. lia.
+    + inversion Hnn as [|? ? Hn Hr]; subst. specialize (IH fr Hr).
+      cbn [default_digests]. destruct (default_digests nr fr) as [d g]. cbn [fst snd] in IH.
+      rewrite sumZ_cons.
+      destruct ((n =? 1) && f_digestdefined f) eqn:E1.
+      * destruct (f_crc f) as [c|].
+        -- cbn [fst snd]. unfold zlen in *. cbn [length]. lia.
+        -- cbn [fst snd]. unfold zlen in *. rewrite !app_length, !repeat_length. lia.
+      * cbn [fst snd]. unfold zlen in *. rewrite !app_length, !repeat_length. lia.
+Qed.
+
 Lemma parse_substreams_size lim fs bs s r :
-  parse_substreams lim fs bs = Ok (s, r) ->
+  wf_bytes bs = true -> parse_substreams lim fs bs = Ok (s, r) ->
   sub_size s + 17 * zlen r <= 17 * zlen bs + 4 * zlen fs + 2 * Z.max lim 0 /\ zlen r <= zlen bs.
 Proof.
-  intros H. unfold parse_substreams in H.
-  bind_ok H. destruct x as [pid r1]. apply rd_pid_nonincreasing in E.
+  intros W H. unfold parse_substreams in H.
+  bind_ok H. destruct x as [pid r1]. pose proof (rd_pid_wfp _ _ _ E W) as W1. apply rd_pid_nonincreasing in E.
   bind_ok H. destruct x as [[nums pid2] r2].
-  assert (Hn : zlen nums = zlen fs /\ zlen nums + zlen r2 <= zlen fs + zlen r1 /\ (length r2 <= length r1)%nat).
+  assert (Hn : (zlen nums = zlen fs /\ zlen nums + zlen r2 <= zlen fs + zlen r1 /\ (length r2 <= length r1)%nat)
+               /\ Forall (fun v => 0 <= v) nums).
   { assert (Hdef : Ok (repeat 1 (length fs), pid, r1) = Ok (nums, pid2, r2) ->
-                   zlen nums = zlen fs /\ zlen nums + zlen r2 <= zlen fs + zlen r1 /\ (length r2 <= length r1)%nat).
-    { intros E'. injection E' as <- _ <-. unfold zlen. rewrite repeat_length. lia. }
+                   (zlen nums = zlen fs /\ zlen nums + zlen r2 <= zlen fs + zlen r1 /\ (length r2 <= length r1)%nat)
+                   /\ Forall (fun v => 0 <= v) nums).
+    { intros E'. injection E' as <- _ <-. split; [unfold zlen; rewrite repeat_length; lia|].
+      apply Forall_forall. intros v Hv. apply repeat_spec in Hv. lia. }
     destruct pid as [pv|]; [|exact (Hdef E0)].
     destruct (pv =? 13) eqn:E13.
     - apply Z.eqb_eq in E13. subst pv.
       bind_ok E0. destruct x as [nm r3].
+      pose proof (rd_rep_number_nonneg _ _ _ _ _ E1 W1) as Hnn.
       apply (rd_many_count_le rd_number _ r1 nm r3 rd_number_consumes) in E1. destruct E1 as (_ & Hl & Hc).
       bind_ok E0. destruct x as [pid3 r4]. apply rd_pid_nonincreasing in E1.
-      injection E0 as <- _ <-. pose proof (zlen_nonneg fs). unfold zlen in *. lia.
+      injection E0 as <- _ <-. split; [|exact Hnn]. pose proof (zlen_nonneg fs). unfold zlen in *. lia.
     - apply Hdef. destruct pv as [|q|q]; try exact E0.
       do 4 (destruct q as [q|q|]; try exact E0). discriminate E13. }
-  destruct Hn as (Hn1 & Hn2 & Hn3).
+  destruct Hn as ((Hn1 & Hn2 & Hn3) & Hnn).
   destruct (existsb (fun n => lim <? n) nums); [discriminate|].
   bind_ok H. destruct x as [[sizes pid3] r3].
   assert (Hs : match sizes with Some l => zlen l | None => 0 end + zlen r3 <= zlen nums + zlen r2 /\ zlen r3 <= zlen r2).
@@ -790,53 +1052,58 @@ Proof.
   destruct Hd as [Hd Hr4].
   destruct pid4 as [pv|]; [|discriminate]. destruct pv; try discriminate.
   destruct (length dd =? 0)%nat eqn:Edd.
-  - destruct (lim <? ntotal) eqn:El; [discriminate|]. injection H as <- <-.
+  - destruct (lim <? ntotal) eqn:El; [discriminate|].
+    pose proof (sub_digest_counts_total _ _ _ _ E2) as Hnt.
+    pose proof (default_digests_length nums fs Hnn) as [Hd1 Hd2].
+    destruct (default_digests nums fs) as [dd' dg']. cbn [fst snd] in Hd1, Hd2. injection H as <- <-.
     unfold sub_size. cbn [s_nums s_sizes s_digestsdefined s_digests].
     pose proof (zlen_nonneg dg). pose proof (zlen_nonneg dd).
-    destruct sizes as [sl|]; unfold zlen in *; rewrite !repeat_length; lia.
+    destruct sizes as [sl|]; unfold zlen in *; lia.
   - injection H as <- <-. unfold sub_size. cbn [s_nums s_sizes s_digestsdefined s_digests].
     destruct sizes as [sl|]; unfold zlen in *; lia.
 Qed.
 
 Lemma parse_streams_size lim bs s r :
-  parse_streams lim bs = Ok (s, r) ->
+  wf_bytes bs = true -> parse_streams lim bs = Ok (s, r) ->
   streams_size s + 17 * zlen r <= 17 * zlen bs + 3 * Z.max lim 0 + 1.
 Proof.
-  intros H. unfold parse_streams in H.
-  bind_ok H. destruct x as [pid r1]. apply rd_pid_nonincreasing in E.
+  intros W H. unfold parse_streams in H.
+  bind_ok H. destruct x as [pid r1]. pose proof (rd_pid_wfp _ _ _ E W) as W1. apply rd_pid_nonincreasing in E.
   bind_ok H. destruct x as [[pack pid2] r2].
   assert (Hp : match pack with Some p => pack_size p | None => 0 end + 3 * zlen r2
-               <= 3 * zlen r1 + Z.max lim 0 + 1 /\ zlen r2 <= zlen r1).
+               <= 3 * zlen r1 + Z.max lim 0 + 1 /\ zlen r2 <= zlen r1 /\ wf_bytes r2 = true).
   { assert (Hdef : Ok (@None packinfo, pid, r1) = Ok (pack, pid2, r2) ->
                    match pack with Some p => pack_size p | None => 0 end + 3 * zlen r2 <= 3 * zlen r1 + Z.max lim 0 + 1
-                   /\ zlen r2 <= zlen r1).
-    { intros E'. injection E' as <- _ <-. lia. }
+                   /\ zlen r2 <= zlen r1 /\ wf_bytes r2 = true).
+    { intros E'. injection E' as <- _ <-. split; [lia|]. split; [lia|exact W1]. }
     destruct pid as [pv|]; [|exact (Hdef E0)].
     destruct (pv =? 6) eqn:E6.
     - apply Z.eqb_eq in E6. subst pv.
       bind_ok E0. destruct x as [p r3]. pose proof (parse_packinfo_bound _ _ _ _ E1) as (_ & Hlt & _).
+      pose proof (parse_packinfo_wfp _ _ _ _ E1 W1) as W3.
       apply parse_packinfo_size in E1.
-      bind_ok E0. destruct x as [pid3 r4]. apply rd_pid_nonincreasing in E2.
-      injection E0 as <- _ <-. unfold zlen in *. lia.
+      bind_ok E0. destruct x as [pid3 r4]. pose proof (rd_pid_wfp _ _ _ E2 W3) as W4. apply rd_pid_nonincreasing in E2.
+      injection E0 as <- _ <-. split; [|split; [|exact W4]]; unfold zlen in *; lia.
     - apply Hdef. destruct pv as [|q|q]; try exact E0.
       do 3 (destruct q as [q|q|]; try exact E0). discriminate E6. }
   bind_ok H. destruct x as [[fo pid3] r3].
-  destruct Hp as [Hp Hr2].
+  destruct Hp as (Hp & Hr2 & W2).
   assert (Hf : match fo with Some f => sumZ (map folder_size f) + 4 * zlen f | None => 0 end + 7 * zlen r3 <= 7 * zlen r2
-               /\ zlen r3 <= zlen r2).
+               /\ zlen r3 <= zlen r2 /\ wf_bytes r3 = true).
   { assert (Hdef : Ok (@None (list folder), pid2, r2) = Ok (fo, pid3, r3) ->
                    match fo with Some f => sumZ (map folder_size f) + 4 * zlen f | None => 0 end + 7 * zlen r3 <= 7 * zlen r2
-                   /\ zlen r3 <= zlen r2).
-    { intros E'. injection E' as <- _ <-. lia. }
+                   /\ zlen r3 <= zlen r2 /\ wf_bytes r3 = true).
+    { intros E'. injection E' as <- _ <-. split; [lia|]. split; [lia|exact W2]. }
     destruct pid2 as [pv|]; [|exact (Hdef E1)].
     destruct (pv =? 7) eqn:E7.
     - apply Z.eqb_eq in E7. subst pv.
-      bind_ok E1. destruct x as [f r4]. apply parse_unpackinfo_size in E2. destruct E2 as [Ha Hb].
-      bind_ok E1. destruct x as [pid4 r5]. apply rd_pid_nonincreasing in E2.
-      injection E1 as <- _ <-. pose proof (zlen_nonneg f). unfold zlen in *. lia.
+      bind_ok E1. destruct x as [f r4]. pose proof (parse_unpackinfo_wfp _ _ _ _ E2 W2) as W4.
+      apply parse_unpackinfo_size in E2. destruct E2 as [Ha Hb].
+      bind_ok E1. destruct x as [pid4 r5]. pose proof (rd_pid_wfp _ _ _ E2 W4) as W5. apply rd_pid_nonincreasing in E2.
+      injection E1 as <- _ <-. pose proof (zlen_nonneg f). split; [|split; [|exact W5]]; unfold zlen in *; lia.
     - apply Hdef. destruct pv as [|q|q]; try exact E1.
       do 3 (destruct q as [q|q|]; try exact E1). discriminate E7. }
-  destruct Hf as [Hf Hr3].
+  destruct Hf as (Hf & Hr3 & W3).
   bind_ok H. destruct x as [[sub pid4] r4].
   assert (Hs : match sub with Some x => sub_size x | None => 0 end + 17 * zlen r4
                <= 17 * zlen r3 + 4 * match fo with Some f => zlen f | None => 0 end + 2 * Z.max lim 0 /\ zlen r4 <= zlen r3).
@@ -848,7 +1115,7 @@ Proof.
     destruct (pv =? 8) eqn:E8.
     - apply Z.eqb_eq in E8. subst pv.
       destruct fo as [f|]; [|discriminate].
-      bind_ok E2. destruct x as [sx r5]. apply parse_substreams_size in E3. destruct E3 as [E3 E3r].
+      bind_ok E2. destruct x as [sx r5]. apply (parse_substreams_size _ _ _ _ _ W3) in E3. destruct E3 as [E3 E3r].
       bind_ok E2. destruct x as [pid5 r6]. apply rd_pid_nonincreasing in E4.
       injection E2 as <- _ <-. unfold zlen in *. lia.
     - apply Hdef. destruct pv as [|q|q]; try exact E2.
@@ -1069,10 +1336,10 @@ Proof.
 Qed.
 
 Lemma parse_header_body_size lim bs h r :
-  parse_header_body lim bs = Ok (h, r) -> header_size h <= 17 * zlen bs + 5 * Z.max lim 0 + 1.
+  wf_bytes bs = true -> parse_header_body lim bs = Ok (h, r) -> header_size h <= 17 * zlen bs + 5 * Z.max lim 0 + 1.
 Proof.
-  intros H. unfold parse_header_body in H.
-  bind_ok H. destruct x as [pid r1]. apply rd_pid_nonincreasing in E.
+  intros W H. unfold parse_header_body in H.
+  bind_ok H. destruct x as [pid r1]. pose proof (rd_pid_wfp _ _ _ E W) as W1. apply rd_pid_nonincreasing in E.
   bind_ok H. destruct x as [[st pid2] r2].
   assert (Hs : match st with Some s => streams_size s | None => 0 end + 17 * zlen r2 <= 17 * zlen r1 + 3 * Z.max lim 0 + 1).
   { assert (Hdef : Ok (@None streamsinfo, pid, r1) = Ok (st, pid2, r2) ->
@@ -1081,7 +1348,7 @@ Proof.
     destruct pid as [pv|]; [|exact (Hdef E0)].
     destruct (pv =? 4) eqn:E4.
     - apply Z.eqb_eq in E4. subst pv.
-      bind_ok E0. destruct x as [s r3]. apply parse_streams_size in E1.
+      bind_ok E0. destruct x as [s r3]. apply (parse_streams_size _ _ _ _ W1) in E1.
       bind_ok E0. destruct x as [pid3 r4]. apply rd_pid_nonincreasing in E2.
       injection E0 as <- _ <-. unfold zlen in *. lia.
     - apply Hdef. destruct pv as [|q|q]; try exact E0.
@@ -1105,22 +1372,22 @@ Proof.
 Qed.
 
 Theorem parse_cost_partial lim bs h :
-  parse_header lim bs = Ok h -> header_size h <= 17 * zlen bs + 5 * Z.max lim 0 + 1.
+  wf_bytes bs = true -> parse_header lim bs = Ok h -> header_size h <= 17 * zlen bs + 5 * Z.max lim 0 + 1.
 Proof.
-  intros H. unfold parse_header in H.
+  intros W H. unfold parse_header in H.
   destruct bs as [|b r]; [injection H as <-; unfold header_size, zlen; cbn [h_streams h_files h_emptyfiles length]; lia|].
   destruct (b =? 1) eqn:E1.
   - apply Z.eqb_eq in E1. subst b. bind_ok H. destruct x as [h' r']. injection H as <-.
-    apply parse_header_body_size in E. unfold zlen in *. cbn [length]. lia.
+    apply (parse_header_body_size _ _ _ _ (wf_bytes_tail _ _ W)) in E. unfold zlen in *. cbn [length]. lia.
   - exfalso. destruct b as [|q|q]; try discriminate H.
     do 6 (try (destruct q as [q|q|]; try discriminate H; try discriminate E1)).
 Qed.
 
 (* every declared count within the limit and the limit within the input: linear *)
 Corollary parse_cost_linear lim bs h :
-  lim <= zlen bs -> parse_header lim bs = Ok h -> header_size h <= 22 * zlen bs + 1.
+  wf_bytes bs = true -> lim <= zlen bs -> parse_header lim bs = Ok h -> header_size h <= 22 * zlen bs + 1.
 Proof.
-  intros Hl H. apply parse_cost_partial in H. pose proof (zlen_nonneg bs). lia.
+  intros W Hl H. apply (parse_cost_partial _ _ _ W) in H. pose proof (zlen_nonneg bs). lia.
 Qed.
 
 Print Assumptions rd_many_count_le.
